@@ -12,6 +12,7 @@ RULE = ('J1939-21: a requester stack (CA operational or without an address) and 
         'really claimed), moved to the next address after losing the preferred one, not started, waiting for veto and cannot-claim (reached by real claim histories with a scripted contender); the requester in any of these states; send_request(0, pgn, dest) '
         'for PGN boundary values and random 18-bit values incl. the address-claim PGN, every destination class (owned, global, unowned, 254, own). '
         'non-trivial = at least one responder CA was operational and one was not; distinct = distinct scenario JSON')
+FAULT_COUNTERS = {'requests from an address-less requester (SA 254)': 'requests_from_254', 'requests to an unowned destination': 'unowned_requests'}
 REQUIRED_PROBES = ['requests', 'claim_requests', 'callbacks', 'claim_answers', 'requests_from_254', 'global_requests', 'unowned_requests', 'moved_cas_operational']
 ASSUMPTIONS = ['send_request is called with data_page=0 (the statement omits the argument; data_page=1 puts the request on PGN 0x1EA00, which is not the Request PGN); '
                'the data-page bit of the *requested* PGN is varied instead']
